@@ -84,7 +84,7 @@ def cases(tier, seed):
             for fi in (0, 1, 2):
                 for ish in ('len0', 'bool0', 'eq'):
                     yield [w, nie, fi, None, ish]
-    for where in ('unit', 'layer_test', 'nowhere'):
+    for where in ('unit', 'layer_test', 'nowhere', 'import'):
         for mode in ('resumed', 'j2'):
             yield ['cwd', where, mode]
     for rk in DISK_ROOTS:
@@ -297,7 +297,17 @@ def run_cwd_case(where, mode):
              {'n': 'c0', 'l': 'C', 's': 'pass'}]
     spec = {'layers': layers, 'tests': tests}
     argv = ['-j2'] if mode == 'j2' else []
-    res = runrt.run_cli(spec, argv, timeout=120, relpath=True)
+    extra = None
+    if where == 'import':
+        # a test module that changes the working directory when it is imported
+        # (i.e. during discovery, in every process)
+        extra = {'vtw/zsub/__init__.py': '',
+                 'vtw/zsub/tests.py': 'import os, tempfile, unittest\n'
+                                      'os.chdir(tempfile.mkdtemp(prefix="vt-chdir-", dir=os.environ.get("VT_SCRATCH_RUN") or "/dev/shm"))\n'
+                                      'class T(unittest.TestCase):\n'
+                                      '    def test_z(self):\n'
+                                      '        pass\n'}
+    res = runrt.run_cli(spec, argv, timeout=120, relpath=True, extra_files=extra)
     ran = collections.Counter(ev[2] for ev in res.trace if ev[1] == 't' and ev[3] == 'body')
     want = collections.Counter({t['n']: 1 for t in tests})
     viol = []
@@ -310,7 +320,7 @@ def run_cwd_case(where, mode):
         viol.append({'clause': 'verdict_failed_for_passing_world', 'sig': sig,
                      'detail': d + 'exit status %r\n%s' % (res.rc, res.text[-800:])})
     m = runrt.TOTAL_RE.search(res.text)
-    if not m or int(m.group(1)) != len(tests):
+    if not m or int(m.group(1)) != len(tests) + (1 if where == 'import' else 0):
         viol.append({'clause': 'totals', 'sig': sig, 'detail': d + 'Total line %r' % (m and m.group(0),)})
     return viol
 
